@@ -21,4 +21,22 @@ func init() {
 		Technique: "runtime monitoring: reference-model oracle over generated values + decoded-layer flow monitor",
 		DesignRef: "DESIGN.md §3 C17",
 	})
+	add(Spec{
+		PropSpec: vlib.PropSpec{
+			ID: "C18", Level: "exploration",
+			Rule: "exhaustive phase: every sequence over the alphabet {P0,P1,P3,P8,P100,A0,A1,A3,A8,A100,Clear,Push} of length <= 5 (quick) / <= 7 (thorough) x 6 initial hints (NewSerializeBuffer, ExpectedSize (0,0),(1,0),(0,1),(8,8),(100,3)); for sequences up to length 5 every still-valid earlier returned slice is rewritten after every op. random phase: 50..500 ops, sizes up to 70 000, incl. rewrites through earlier slices. stack phase: SerializeLayers over 0..6 stub layers (prepend + optional trailer append, injected errors) on fresh/pre-sized/dirty buffers. After every op Bytes()/Layers() are compared with a reference deque in virtual coordinates and the returned slice is checked by address to be the window at its position. Non-trivial = sequence with a non-empty prepend AND a non-empty append (exhaustive), every random sequence, stacks of >= 2 layers; distinct by (hint, op list) hash.",
+			Assumptions: []string{"bounded-depth enumeration is complete only for the stated alphabet, depth and hints"},
+			Phases: []vlib.Phase{
+				{Name: "exhaustive", Bin: "vchild", Quick: 16, Thorough: 16},
+				{Name: "random", Bin: "vchild", Quick: 8, Thorough: 16},
+				{Name: "stack", Bin: "vchild", Quick: 4, Thorough: 8},
+			},
+			Require:    []string{"sequences_enumerated", "random_ops", "stacks_checked", "stack_error_cases"},
+			Exhaustive: func(string) bool { return true },
+		},
+		LevelText: "Runtime monitor: the real SerializeBuffer is driven through every operation sequence of a bounded alphabet/depth (complete enumeration, so exhaustive:true refers to that bounded space) and long random sequences, with an independent reference deque compared after every operation and address-window checks on returned slices.",
+		LevelNote: trusted,
+		Technique: "runtime monitoring: reference-model (deque) comparison after every operation, bounded-exhaustive + random operation histories",
+		DesignRef: "DESIGN.md §3 C18",
+	})
 }
